@@ -108,6 +108,24 @@ def stop_once(F, R):
             if sb in after and sb in regions['Processing']:
                 R.ob('C07.stop-once', 'poll|stop-after-poll_service|on-Ready-edge|%s' % stop_label(poll, sb), sb in ready_region,
                      'a stop() in the Processing arm is reachable when poll_service returned Continue (it may already have stopped)', poll.loc(sb))
+    # ... and so must every state store that follows it in the same poll round: poll_service answers Continue exactly when it
+    # has already moved the dispatcher on (Stop installed); a store made regardless overwrites that state and drops the
+    # control call
+    for bi, t in poll.calls_to(r'^io::DispatcherInner::<P, C, U, E>::poll_service$'):
+        after = poll.reachable_after(bi, avoid={head})
+        for sb_, var_, s_ in state_stores(poll):
+            if sb_ in after and var_ in ('Processing', 'Backpressure'):
+                R.ob('C07.stop-once', 'poll|state-store-after-poll_service|on-Ready-edge|%s@%s' % (var_, state_of(regions, sb_)), sb_ in ready_region,
+                     'the dispatcher state is overwritten after poll_service() without looking at its answer: when poll_service has just stopped the dispatcher (handler error, readiness error, peer gone) the Stop state and its control call are lost - no Stop notification, the connection stays up', poll.loc(sb_))
+    # handler tasks are cancellable from the moment they are spawned: the waiter on `stopping` is created in call_service,
+    # before the spawn (a Condition waiter registers when it is created; one created inside the task misses a notify() that
+    # happens before the task is first polled)
+    cs_ = F.one(r'^io::DispatcherInner::<P, C, U, E>::call_service$')
+    spawns_ = [bi for bi, t in cs_.calls_to(r'::spawn$')]
+    waits_ = [bi for bi, t in cs_.calls_to(r'Condition(::<T>)?::wait$') if 'stopping' in (call_recv_path(cs_, t, 0) or ())]
+    inside_ = [c.path for c in F.descendants(cs_) if list(c.calls_to(r'Condition(::<T>)?::wait$'))]
+    R.ob('C07.drain', 'call_service|spawned-handler|stop-waiter-created-before-spawn', bool(spawns_) and bool(waits_) and all(any(cs_.dominates(w, sp) for w in waits_) for sp in spawns_) and not inside_,
+         'the spawned handler task registers for the stop notification only when it is first polled (%s): a teardown that completes before that never cancels it - the handler and the dispatcher state it holds stay alive' % (inside_ or 'no wait() before spawn'), cs_.loc(spawns_[0]) if spawns_ else cs_.loc(0))
     # (d) transitions
     allowed = {'Processing': {'Backpressure', 'Stop'}, 'Backpressure': {'Processing', 'Stop'}, 'Stop': {'Shutdown'}, 'Shutdown': {'ShutdownIo'}, 'ShutdownIo': set()}
     n_tr = 0
